@@ -121,11 +121,15 @@ CLAIMS = {
          "ordered commit of ANY journal account (all status bytes; destroyed / created / empty-touched / changed, slot changed or not) "
          "db_storage serves exactly what revm's State serves -- sequentially, and when a speculative worker's cache-filling read races the "
          "commit (either role running atomically at every conflicting visible operation of the other: context bound A|B|A): a concurrent "
-         "read never changes what the state later serves. This check found defect F1 (fixed in 7f18662).",
-    note=TRUST + "NOT decided: the field-by-field equality of CacheAccountInfo's status transitions (selfdestruct / newly_created / "
-         "touch_empty_eip161 / change / increment_balance / drain_balance) with revm's CacheAccount and of the extracted BundleState / reverts "
-         "with revm's (they are ghosts setting the documented status class here; the differential harness against revm-database's MIR was not "
-         "built); db_basic / db_code_by_hash; real rayon scheduling in the bundle builder. 2 addresses x 2 slots, 8-bit values.",
+         "read never changes what the state later serves (this check found defect F1, fixed in 7f18662). Differential (translation-validation "
+         "style): grevm's CacheAccountInfo::{selfdestruct, touch_empty_eip161, newly_created, change, increment_balance} (MIR) against revm-database's "
+         "CacheAccount methods (MIR of the dependency, same run) from ANY (status, account) pair and any new info / storage: resulting status "
+         "and account, the TransitionAccount (info, previous info, both statuses, storage_was_destroyed, storage slots) and the slot values "
+         "handed to the storage cache are field-by-field equal.",
+    note=TRUST + "In the reader/commit kernels the status transitions are ghosts setting the documented status class (their equality with "
+         "revm is the differential harnesses' job). NOT decided: drain_balance, apply_account_state against revm CacheState::apply_account_state "
+         "as a whole, the extracted BundleState / reverts (bundle.rs; revm's merge code), db_basic / db_code_by_hash, real rayon scheduling. "
+         "2 addresses x 2 slots, 8-bit values.",
     design="5/C10"),
  "C12": dict(
     text="Bounded model checking of the guard's own decision logic on the real code (guarded_create for CREATE and for CREATE2, "
